@@ -44,6 +44,20 @@ def coordinate_values():
     )
 
 
+def extreme_values():
+    """Magnitudes far from 1 but well inside the double range (1e-250 .. 1e250), both signs, plus ordinary values."""
+    big = st.builds(lambda m, k, sg: sg * m * 10.0 ** k, st.sampled_from([1.0, 2.5, 7.0, 1.5]),
+                    st.one_of(st.integers(-250, -100), st.integers(100, 250), st.integers(-30, 30)), st.sampled_from([1, -1]))
+    return st.one_of(big, big, st.sampled_from([0, 1, -1, 2, 0.5, 0.0, 1e-200, -1e-200, 1e200, 1e-160, 1e-170, 3e-155]), st.integers(-3, 3))
+
+
+def extreme_leaves(names):
+    opts = [extreme_values().map(lambda v: ("Constant", v))]
+    if names:
+        opts += [st.sampled_from(names).map(lambda n: ("Variable", n))] * 2
+    return st.one_of(*opts)
+
+
 def exp_bases():
     return st.one_of(st.sampled_from(EXP_BASES), st.floats(min_value=0.05, max_value=20.0, allow_nan=False))
 
@@ -95,9 +109,15 @@ def trees(draw, names, depth=4, pool=None, tags=None, max_arity=5, leaf=None, co
         if t == "Logarithm":
             return (t, sub(d - 1), draw(log_bases()))
         if t in M.BINARY:
-            return (t, sub(d - 1), sub(d - 1))
+            a = sub(d - 1)
+            # sometimes the sibling is a structurally EQUAL but separately built sub-tree (not the same object)
+            b = M.clone(a) if (a[0] not in M.LEAVES and draw(st.integers(0, 7)) == 0) else sub(d - 1)
+            return (t, a, b)
         k = draw(st.sampled_from([0, 1, 2, 2, 2, 3, 3, 4, max_arity]))
-        return (t, tuple(sub(d - 1) for _ in range(k)))
+        kids = [sub(d - 1) for _ in range(k)]
+        if k >= 2 and kids[0][0] not in M.LEAVES and draw(st.integers(0, 7)) == 0:
+            kids[draw(st.integers(1, k - 1))] = M.clone(kids[0])
+        return (t, tuple(kids))
     return sub(depth)
 
 
